@@ -26,7 +26,9 @@ def child_program(outcome):
         return {'steps': [gen.S([['gate', 'go'], ['out', 'x', outcome[1]]], ['value', outcome[1]], True)]}
     if outcome[0] == 'exc':
         return {'steps': [gen.S([['gate', 'go']], ['raise', outcome[1]], True)]}
-    return {'steps': [gen.S([['gate', 'go'], ['gate', 'never']], ['value', 0], True)]}
+    # (killed while it waits for a wake-up that never comes: a kill interrupts a wait at once, whereas a running step
+    # would first have to come to its end)
+    return {'steps': [gen.S([['yield']], ['wait', 1, 'never', None], True), gen.S([], ['value', 0])]}
 
 
 def build(case):
@@ -120,7 +122,7 @@ def run(case):
             ex.drain()
         awaited = w.extra.get('awaited', {}).get(1, [])
         obs['awaited'] = [
-            {'key': r['key'], 'how': r['how'], 'kind': r['spec'][0], 'done': r['fut'].done(), 'order': r['order']} for r in awaited
+            {'key': r['key'], 'how': r['how'], 'kind': r['spec'][0], 'done': r['fut'].done(), 'order': r['order'], 'child_terminated': bool(r['spec'][0] == 'child' and hasattr(r['obj'], 'has_terminated') and r['obj'].has_terminated()), 'child_state': r['obj'].state.value if r['spec'][0] == 'child' and hasattr(r['obj'], 'state') else None} for r in awaited
         ]
         obs['all_completed'] = all(r['fut'].done() for r in awaited) and len(awaited) >= len(awaits)
         obs['entries'] = [e for e in w.trace.get(1, []) if e['k'] == 'enter']
@@ -163,6 +165,11 @@ def judge(case, obs, v):
         v('to-context-bypassed', f'awaitables {bypassed} were registered without going through the (overridable) to_context() method')
     if obs.get('left_loop'):
         v('left-its-loop', f"{obs['left_loop']} callback(s) were scheduled on the thread's default loop instead of the loop the chain and its children were given")
+    for item in obs['awaited']:
+        if item.get('child_terminated') and not item['done']:
+            # the future of the child that was handed to the barrier when it was registered is the one that tells the end
+            v('awaited-future-never-resolved', f"awaited child {item['key']} has terminated ({item['child_state']}) but the future the chain waits on is still pending")
+            return 'incomplete'
     if not obs['all_completed']:
         return 'incomplete'
     first_failure = obs['first_failure']
